@@ -33,6 +33,13 @@ REPO_SRC = "/repo/src"
 GUARD = "XSTATE_STATEMACHINE_VERIF"
 
 
+class Budget(KeyboardInterrupt):
+    """Raised by recorder stubs / the watchdog when a run exceeds its action
+    budget.  Derives from KeyboardInterrupt because asyncio's Task.__step and
+    the interpreters' `except Exception` / `except BaseException` handlers
+    store or swallow anything else."""
+
+
 # --------------------------------------------------------------------------
 # environment
 # --------------------------------------------------------------------------
@@ -150,12 +157,27 @@ def pin_path() -> None:
         sys.path.insert(0, VERIF)
 
 
+class Watchdog(KeyboardInterrupt):
+    """Wall-clock backstop for a hung library call (reported, never 'covered')."""
+
+
+def _alarm(signum, frame):
+    raise Watchdog("unit exceeded its wall-clock backstop")
+
+
 def _run_unit(args):
     modname, unit = args
+    import signal
+
     try:
         mod = importlib.import_module(modname)
         t0 = time.time()
-        res = mod.run_unit(unit)
+        signal.signal(signal.SIGALRM, _alarm)
+        signal.alarm(int(getattr(mod, "UNIT_TIMEOUT", 300)))
+        try:
+            res = mod.run_unit(unit)
+        finally:
+            signal.alarm(0)
         res["wall"] = time.time() - t0
         return res
     except BaseException as exc:  # harness error, not a violation
